@@ -10,7 +10,7 @@ from dataclasses import dataclass, field
 ROOT = "/verif"
 WORK = os.path.join(ROOT, ".work")
 EVID = os.path.join(ROOT, "evidence")
-FINDINGS = os.path.join(ROOT, "known_findings.jsonl")
+FINDINGS = os.path.join(ROOT, "known_findings.txt")
 
 EXIT_OK, EXIT_VIOLATION, EXIT_INCONCLUSIVE, EXIT_HARNESS = 0, 1, 2, 3
 
@@ -39,19 +39,29 @@ class Result:
 
 
 def load_findings():
+    """known_findings.txt, one entry per line:
+         open: property=<id>[,<id>...] signature=<signature> :: <what fails>
+         fixed: property=<id>[,<id>...] <commit> <what failed>
+    `fixed` lines are documentation only (they suppress nothing)."""
     out = []
     if os.path.exists(FINDINGS):
         for line in open(FINDINGS):
             line = line.strip()
-            if line and not line.startswith("#"):
-                out.append(json.loads(line))
+            if not line or line.startswith("#"):
+                continue
+            if line.startswith("open:"):
+                head, _, what = line[5:].partition("::")
+                props, _, sig = head.strip().partition(" signature=")
+                out.append({"status": "open", "properties": props.replace("property=", "").strip().split(","), "signature": sig.strip(), "what": what.strip()})
+            elif line.startswith("fixed:"):
+                out.append({"status": "fixed", "line": line})
     return out
 
 
 def finding_for(prop: str, signature: str):
     """An *open* finding listed for this property whose signature equals the violation's signature."""
     for f in load_findings():
-        if f.get("status") == "open" and prop in f.get("properties", [f.get("property")]) and f.get("signature") == signature:
+        if f.get("status") == "open" and prop in f["properties"] and f["signature"] == signature:
             return f
     return None
 
